@@ -1,38 +1,12 @@
 #pragma once
 // ut_map / ut_set: std::map<key, keyed_element{[value], ttl iterator}> + list<ttl_element{deadline, map iterator}>
 // HCAP here is the bound on the number of residents in the pre-state (the containers have no capacity).
-#include <optional>
-#include <cappuccino/allow.hpp>
-#include <cappuccino/lock.hpp>
-#include <cappuccino/peek.hpp>
 #ifdef C_IS_UTSET
-#include <cappuccino/ut_set.hpp>
-#define T_NAME "utset"
-#define T_VALUE 0
-#define T_HAS_CLEAR 0
-using C = cappuccino::ut_set<uint64_t, cappuccino::thread_safe::TS>;
+#include "api_utset.hpp"
 #else
-#include <cappuccino/ut_map.hpp>
-#define T_NAME "utmap"
-#define T_VALUE 1
-#define T_HAS_CLEAR 1
-using C = cappuccino::ut_map<uint64_t, uint64_t, cappuccino::thread_safe::TS>;
+#include "api_utmap.hpp"
 #endif
 #include "vf_inv.hpp"
-#include "abs.hpp"
-#define T_POLICY P_NONE
-#define T_TTL 2
-#define T_PEEK 0
-#define T_CAPPED 0
-#define T_PURGE 1
-#define T_HAS_CLEAN 1
-#define T_HAS_AGE 0
-#define T_HAS_UPDTTL 0
-#define DECL_C(c) C c(std::chrono::milliseconds{100})
-using TP = std::chrono::steady_clock::time_point;
-static inline int64_t tp_i(TP t) { return t.time_since_epoch().count(); }
-static inline TP      i_tp(int64_t x) { return TP(std::chrono::steady_clock::duration(x)); }
-extern int64_t        last_now;
 
 template<class S>
 static void install(C& c, S& s)
@@ -119,25 +93,4 @@ static void alpha(C& c, Abs& a)
             a.d[p] = tp_i(te.m_expire_time);
             t      = L.m_pool[t].next;
         }
-}
-static bool x_insert(C& c, uint64_t k, uint64_t v, uint8_t a, int64_t)
-{
-#ifdef C_IS_UTSET
-    return c.insert(k, (cappuccino::allow)a);
-#else
-    return c.insert(k, v, (cappuccino::allow)a);
-#endif
-}
-static bool x_erase(C& c, uint64_t k) { return c.erase(k); }
-static void x_find(C& c, uint64_t k, bool, Res& r)
-{
-#ifdef C_IS_UTSET
-    r.ok  = c.find(k);
-    r.val = 0;
-#else
-    auto o = c.find(k);
-    r.ok   = o.has_value();
-    r.val  = r.ok ? *o : 0;
-#endif
-    r.cnt = 0;
 }
